@@ -94,7 +94,7 @@ class Unit:
     def _lost_anchor(self, ctx, p, why):
         """The expansion no longer has the shape the contracts are keyed on (a refactored template): never a violation.  The program's
         obligations are recorded as undecided so that the bounded Kani twins can stand in (kani_fallback)."""
-        o = core.Obligation('%s/lost-anchor' % p.name, p.name, 'lost-anchor', 'verus', [ctx.pid])
+        o = core.Obligation('%s/lost-anchor' % p.name, p.name, 'lost-anchor: ' + why[:160], 'verus', [ctx.pid])
         o.status = 'undecided'
         o.detail = 'verus status=error (not run)\nlost-anchor: %s' % why
         ctx.obligations.append(o)
@@ -236,7 +236,7 @@ class Unit:
         need = {}
         done_ids = set(o.oid for o in ctx.obligations if o.backend == 'kani')
         for p in todo:
-            hs = self.fallback_harnesses(ctx, p, [o.fn for o in by_prog[p.name]])
+            hs = self.fallback_harnesses(ctx, p, [o.fn for o in by_prog[p.name] if getattr(o, 'culprit', True)])
             if hs:
                 have[p.name] = hs
                 missing = [h for h in hs if '%s/kani:%s' % (p.name, h[0]) not in done_ids]
